@@ -35,6 +35,11 @@ struct shim_packed_cfg {
     int (*del_member)(void *, uint32_t len, uint64_t);
     int64_t (*member)(const void *, uint32_t len, uint64_t);
     uint32_t (*lower_bound)(const void *, uint32_t len, uint64_t);
+    /* the *Bytes convenience forms: the element count is derived from the storage size */
+    int64_t (*member_bytes)(const void *, size_t bytes, uint64_t);
+    void (*insert_sorted_bytes)(void *, size_t bytes, uint64_t);
+    int (*del_member_bytes)(void *, size_t bytes, uint64_t);
+    int max_elements; /* PACK_MAX_ELEMENTS of the instantiation, 0 if lengths are 32-bit */
 };
 extern const struct shim_packed_cfg shim_packed_cfgs[];
 extern const int shim_packed_ncfgs;
